@@ -20,7 +20,7 @@ import (
 // real code every run and reports it under a stable key (known_findings.json). The same worlds
 // are the `Neg` theorems of LinVerif/Props/C12.lean.
 var witnesses = []func(c *core.Ctx){witnessArrivalOrder, witnessMissingField, witnessLastField, witnessTwoFunctions, witnessReceiveOnly, witnessArrivalOrderL2, witnessMissingFieldL2,
-	witnessErrorBeforeComplete, fixedNotFoundLast, fixedLimitSpread, fixedEmptyLeafCounts, fixedCloseKeys, fixedHaving, fixedManyBrokers, fixedIdleLeaf, fixedTwoAggGaps, fixedWhereDisjointValues, witnessNotComposite, fixedRaggedGroupBy, fixedHighContainer}
+	witnessErrorBeforeComplete, fixedNotFoundLast, fixedLimitSpread, fixedEmptyLeafCounts, fixedCloseKeys, fixedHaving, fixedManyBrokers, fixedIdleLeaf, fixedTwoAggGaps, fixedWhereDisjointValues, witnessNotComposite, fixedRaggedGroupBy, fixedHighContainer, witnessAutoGroupByTimeRollup, witnessRangeAcrossThreshold}
 
 func twoSeriesWorld(types ...field.Type) *World {
 	w := &World{TagKeys: []string{"host"}}
